@@ -17,8 +17,12 @@ use std::collections::HashMap;
 
 /// While a decode operation runs, the raw descriptors of the message's descriptor list: a decoded UnixFd is
 /// printed as its index in this list (that is what the bytes say), otherwise as 0 (live) / 1 (taken).
+/// With FD_DISTINCT (bin c15): as the tag of the file behind it (fd_ident).
 pub static FD_TABLE: std::sync::Mutex<Vec<i32>> = std::sync::Mutex::new(Vec::new());
 pub fn fd_token(fd: &UnixFd) -> String {
+    if FD_DISTINCT.load(std::sync::atomic::Ordering::Relaxed) {
+        return fd_ident(fd);
+    }
     match fd.get_raw_fd() {
         Some(raw) => {
             let t = FD_TABLE.lock().unwrap();
@@ -45,8 +49,58 @@ thread_local! {
 pub fn body_state() -> String {
     BODY.with(|b| {
         let b = b.borrow();
-        format!("sig={} buf={} nfds={}", crate::hex(b.get_sig().as_bytes()), crate::hex(b.get_buf()), b.body.get_fds().len())
+        let ids: Vec<String> = b.body.get_fds().iter().map(fd_ident).collect();
+        format!(
+            "sig={} buf={} nfds={} fds={}",
+            crate::hex(b.get_sig().as_bytes()),
+            crate::hex(b.get_buf()),
+            b.body.get_fds().len(),
+            if ids.is_empty() { "-".to_string() } else { ids.join(",") }
+        )
     })
+}
+
+// ---------------------------------------------------------------- descriptor identities (C15)
+/// With FD_DISTINCT set (bin c15 sets it at start) every `h` leaf of a value gets a descriptor on a file of its OWN (a
+/// memfd) instead of dup(2), and a tag: the number of `h` leaves made since the last reset_fd_tags() (live and taken ones
+/// count alike, in the order the tokens are read).  The tag is kept under the file's (st_dev, st_ino), which dup() - the
+/// crate dups on marshal - preserves: fd_ident tells WHICH value's file sits behind a descriptor of the body.
+pub static FD_DISTINCT: std::sync::atomic::AtomicBool = std::sync::atomic::AtomicBool::new(false);
+static FD_TAGS: std::sync::Mutex<Option<(u64, HashMap<(u64, u64), u64>)>> = std::sync::Mutex::new(None);
+pub fn reset_fd_tags() {
+    *FD_TAGS.lock().unwrap() = None;
+}
+/// a new raw descriptor for an `h` leaf
+pub fn fresh_fd() -> i32 {
+    use std::os::fd::IntoRawFd;
+    if !FD_DISTINCT.load(std::sync::atomic::Ordering::Relaxed) {
+        return nix::unistd::dup(2).unwrap();
+    }
+    let name = std::ffi::CString::new("c15").unwrap();
+    let raw = nix::sys::memfd::memfd_create(&name, nix::sys::memfd::MemFdCreateFlag::MFD_CLOEXEC).unwrap().into_raw_fd();
+    let st = nix::sys::stat::fstat(raw).unwrap();
+    let mut g = FD_TAGS.lock().unwrap();
+    let (next, map) = g.get_or_insert_with(|| (0, HashMap::new()));
+    // a file that is gone may hand its inode number to a later one: the later tag replaces it
+    map.insert((st.st_dev as u64, st.st_ino as u64), *next);
+    *next += 1;
+    raw
+}
+/// the tag of the file behind a descriptor: "t" taken, "?" a file no `h` leaf made (or FD_DISTINCT off)
+pub fn fd_ident(fd: &UnixFd) -> String {
+    let raw = match fd.get_raw_fd() {
+        Some(r) => r,
+        None => return "t".to_string(),
+    };
+    let st = match nix::sys::stat::fstat(raw) {
+        Ok(st) => st,
+        Err(_) => return "closed".to_string(),
+    };
+    let g = FD_TAGS.lock().unwrap();
+    match g.as_ref().and_then(|(_, m)| m.get(&(st.st_dev as u64, st.st_ino as u64))) {
+        Some(t) => t.to_string(),
+        None => "?".to_string(),
+    }
 }
 pub fn parser_state() -> String {
     PARSER.with(|p| {
@@ -200,7 +254,7 @@ impl Tok for Fd {
     fn from_tok(a: &mut Args) -> Self {
         assert_eq!(a.next(), "h");
         let taken = a.num() != 0;
-        let raw = nix::unistd::dup(2).unwrap();
+        let raw = fresh_fd();
         let fd = UnixFd::new(raw);
         if taken {
             let r = fd.clone().take_raw_fd().unwrap();
